@@ -216,6 +216,26 @@ func (fc *fnCtx) region(st *State, name string, sort string) string {
 // regionIn reads a region in an explicit heap snapshot, declaring the initial constant if needed.
 func (fc *fnCtx) regionIn(st *State, heap map[string]string, name string, sort string) string {
 	if t, ok := heap[name]; ok {
+		if strings.HasSuffix(t, "!0") {
+			// entry snapshots are shared between paths: make sure this path declares the initial constant
+			d := fmt.Sprintf("(declare-const %s %s)", t, sort)
+			found := false
+			for _, x := range st.decls {
+				if x == d {
+					found = true
+					break
+				}
+			}
+			if !found {
+				st.decls = append(st.decls, d)
+				if _, has := fc.regionSort[name]; !has {
+					fc.regionSort[name] = sort
+				}
+				if _, has := st.heap[name]; !has {
+					st.heap[name] = t
+				}
+			}
+		}
 		return t
 	}
 	if _, ok := fc.regionSort[name]; !ok {
